@@ -15,6 +15,9 @@ void btc_logf_stderr(const char* fmt...);
 inline bool btc_enabled(btc_logf_t logger) { return logger != btc_logf_dummy; }
 
 opcodetype GetOpCode(const char* name);
+// GetOpCode reports "no such opcode" as OP_INVALIDOPCODE (0xff), which is also what OP_xff denotes:
+// callers that need to tell the two apart use this
+bool ParseOpCode(const char* name, opcodetype& opcode);
 void GetStackFeatures(opcodetype opcode, size_t& spawns, size_t& slays);
 
 #endif // BITCOIN_BTCDEB_SCRIPT_H
